@@ -242,7 +242,8 @@ class DerivedLevel(Level):
             for j in range(window.width):
                 idx = i+(j-(window.width-1))*sustain_count
                 # `None` if the trial is before the first, or if `f` has no level there yet
-                if idx >= 0 and levels[idx] is not None:
+                # (which a sample converted from names records as a level named '')
+                if idx >= 0 and levels[idx] is not None and levels[idx].name != "":
                     args.append(levels[idx].name)
                 else:
                     args.append(None)
